@@ -205,6 +205,33 @@ Touched(st) ==
     [] st.type \in {"addNodeMark", "removeNodeMark", "attr"} -> <<st.pos, st.pos + 1>>
     [] OTHER -> <<0, -1>>
 
+(* A replace also touches what it re-parents: the tokens after `to` that end up in a node of different
+   markup - the remainder of an ancestor of `to` that is joined onto the slice's open end node, or (where the
+   slice is shallower, and for deletions) onto the corresponding ancestor of `from`, when that node has another
+   type, other attributes or marks.  E.g. splitting a paragraph with a slice  </p><code_block>  turns the rest of
+   the paragraph into a code block.  (Node.replace keeps the document's nodes on the `from` side, so nothing before
+   `from` is re-parented.)  The interval then extends to the close token of the outermost such ancestor. *)
+Markup(tok) == <<tok.t, tok.a, tok.m>>
+SliceOpenEndToks(s) == LET M == MatchArr(s.toks) IN [j \in 1..s.oe |-> s.toks[M[Len(s.toks) - j + 1]]]
+RetypeEnd(d, f, t, s) ==
+  IF ~(InRange(d, f) /\ InRange(d, t) /\ f <= t) THEN t
+  ELSE IF ~DepthsFit(d, f, t, s) THEN t
+  ELSE LET af == StackAt(d, f)
+           at == StackAt(d, t)
+           extra == Len(af) - s.os
+           stop == StopDepth(d, f, t, s)
+           lv == {k \in (stop + 1)..Len(at) :
+                    Markup(d[at[k]]) # Markup(IF k <= extra THEN d[af[k]] ELSE SliceOpenEndToks(s)[k - extra])}
+       IN IF lv = {} THEN t ELSE MatchArr(d)[at[SetMin(lv)]]
+TouchedIn(st, d) ==
+  CASE st.type = "replace" -> <<st.from, RetypeEnd(d, st.from, st.to, st.slice)>>
+    [] st.type = "replaceAround" ->
+         IF InRange(d, st.from) /\ InRange(d, st.to) /\ st.from <= st.gapFrom /\ st.gapFrom <= st.gapTo /\ st.gapTo <= st.to
+            /\ st.insert >= 0 /\ st.insert <= SliceSize(st.slice)
+         THEN <<st.from, RetypeEnd(d, st.from, st.to, InsertAt(st.slice, st.insert, SubSeq(d, st.gapFrom + 1, st.gapTo)))>>
+         ELSE <<st.from, st.to>>
+    [] OTHER -> Touched(st)
+
 (* ---- merging ---- *)
 NoMerge == [type |-> "none"]
 SliceCat(a, b) ==
